@@ -41,7 +41,9 @@ def run_one(binary, cfg, runs, seed, max_len, env_extra=None, watchdog=3600):
     env["VF_FUZZ_RING"] = ring
     if env_extra:
         env.update(env_extra)
-    cmd = [binary, "-runs=%d" % runs, "-seed=%d" % ((seed & 0x7FFFFFFF) or 1),  # libFuzzer treats 0 as "pick a random seed" "-max_len=%d" % max_len, "-len_control=50", "-print_final_stats=1", "-artifact_prefix=" + d + "/",
+    # libFuzzer treats -seed=0 as "pick a random seed"
+    cmd = [binary, "-runs=%d" % runs, "-seed=%d" % ((seed & 0x7FFFFFFF) or 1), "-max_len=%d" % max_len, "-len_control=50", "-print_final_stats=1",
+           "-artifact_prefix=" + d + "/",
            "-timeout=60", "-rss_limit_mb=4096", corpus]
     res = {"cfg": cfg.name, "viols": [], "crashes": [], "summaries": [], "inconclusive": [], "fuzz": {}}
     t0 = time.time()
@@ -67,6 +69,8 @@ def run_one(binary, cfg, runs, seed, max_len, env_extra=None, watchdog=3600):
     if m:
         fz.update({"edges": int(m.group(2)), "features": int(m.group(3)), "corpus": int(m.group(4))})
     res["fuzz"] = fz
+    if rc == 0 and fz["inputs"] < runs:
+        res["inconclusive"].append({"cfg": cfg.name, "why": "fuzz stage: libFuzzer reported %d executed inputs, %d were asked for" % (fz["inputs"], runs)})
     artifacts = [f for f in os.listdir(d) if f.startswith(("crash-", "leak-", "timeout-", "oom-"))]
     saved = None
     if artifacts:
